@@ -173,6 +173,22 @@ func startWatchdog(d time.Duration) {
 
 func beat() { caseStartNs.Store(time.Now().UnixNano()) }
 
+// Tier is "quick" or "thorough" (workers inherit it from the supervisor).
+func Tier() string {
+	if t := os.Getenv("VERIF_WORKER_TIER"); t != "" {
+		return t
+	}
+	return *fTier
+}
+
+// SetHangInfo lets a world say what it was working on, for watchdog dumps.
+func SetHangInfo(f func() string) {
+	HangInfo = f
+	if *fDescribe {
+		fmt.Fprintf(os.Stderr, "CASE-DESCRIPTION\n%s\nEND-CASE-DESCRIPTION\n", f())
+	}
+}
+
 type caseMsg struct {
 	T     string     `json:"t"`
 	Case  int        `json:"case,omitempty"`
@@ -206,20 +222,21 @@ type KnownFinding struct {
 // ---------------------------------------------------------------------------
 
 var (
-	fMode    = flag.String("mode", "super", "super | worker | replay | one")
-	fTier    = flag.String("tier", "quick", "quick | thorough")
-	fSeed    = flag.Uint64("seed", 1, "VERIF_SEED")
-	fFirst   = flag.Int("first", 0, "worker: index of first case")
-	fCount   = flag.Int("count", 0, "worker: number of cases (0 = until time budget)")
-	fSeconds = flag.Int("seconds", 0, "worker: wall budget")
-	fFile    = flag.String("file", "", "replay file / tape file")
-	fVerif   = flag.String("verif", "/verif", "root of /verif (evidence, replays, known findings)")
-	fProcs   = flag.Int("procs", 0, "worker processes (0 = config default)")
-	fCases   = flag.Int("cases", 0, "override cases per worker (quick)")
-	fSecs    = flag.Int("secs", 0, "override seconds per worker (thorough)")
-	fNoEvid  = flag.Bool("no-evidence", false, "do not write the evidence file")
-	fWd      = flag.Int("wd", 0, "one: watchdog seconds override")
-	fEvents  = flag.String("events", "", "worker: write one line per case with its outcome hash (determinism self-test)")
+	fMode     = flag.String("mode", "super", "super | worker | replay | one")
+	fTier     = flag.String("tier", "quick", "quick | thorough")
+	fSeed     = flag.Uint64("seed", 1, "VERIF_SEED")
+	fFirst    = flag.Int("first", 0, "worker: index of first case")
+	fCount    = flag.Int("count", 0, "worker: number of cases (0 = until time budget)")
+	fSeconds  = flag.Int("seconds", 0, "worker: wall budget")
+	fFile     = flag.String("file", "", "replay file / tape file")
+	fVerif    = flag.String("verif", "/verif", "root of /verif (evidence, replays, known findings)")
+	fProcs    = flag.Int("procs", 0, "worker processes (0 = config default)")
+	fCases    = flag.Int("cases", 0, "override cases per worker (quick)")
+	fSecs     = flag.Int("secs", 0, "override seconds per worker (thorough)")
+	fNoEvid   = flag.Bool("no-evidence", false, "do not write the evidence file")
+	fDescribe = flag.Bool("describe", false, "one/replay: print the case description before running it")
+	fWd       = flag.Int("wd", 0, "one: watchdog seconds override")
+	fEvents   = flag.String("events", "", "worker: write one line per case with its outcome hash (determinism self-test)")
 )
 
 // CaseSeed derives the seed of case i of a run.
@@ -425,7 +442,7 @@ func runOneSubproc(rec []uint32, cfg Config, timeout time.Duration) (sig, detail
 	os.WriteFile(tf, b, 0o644)
 	cmd := exec.Command(self(), append(append([]string{}, cfg.SelfArgs...), "-mode=one", "-file="+tf, fmt.Sprintf("-wd=%d", wdSeconds(timeout)))...)
 	cmd.Env = append(os.Environ(), cfg.ExtraWorkerEnv...)
-	cmd.Env = append(cmd.Env, "VERIF_WORKDIR="+dir)
+	cmd.Env = append(cmd.Env, "VERIF_WORKDIR="+dir, "VERIF_WORKER_TIER="+Tier())
 	var stdout, stderr strings.Builder
 	cmd.Stdout = &stdout
 	cmd.Stderr = &stderr
@@ -879,7 +896,7 @@ func runWorker(j job, cfg Config, workdir string) (fs []found, trouble []string,
 		}
 		cmd := exec.Command(self(), append(append([]string{}, cfg.SelfArgs...), args...)...)
 		cmd.Env = append(os.Environ(), cfg.ExtraWorkerEnv...)
-		cmd.Env = append(cmd.Env, "VERIF_WORKDIR="+dir)
+		cmd.Env = append(cmd.Env, "VERIF_WORKDIR="+dir, "VERIF_WORKER_TIER="+Tier())
 		stderrPath := filepath.Join(dir, "stderr")
 		ef, _ := os.Create(stderrPath)
 		cmd.Stderr = ef
@@ -1028,7 +1045,7 @@ func confirmSeed(cs uint64, cfg Config, timeout time.Duration) (sig, detail stri
 	dir, _ := os.MkdirTemp("", "verif-one-")
 	defer os.RemoveAll(dir)
 	cmd.Env = append(os.Environ(), cfg.ExtraWorkerEnv...)
-	cmd.Env = append(cmd.Env, "VERIF_WORKDIR="+dir)
+	cmd.Env = append(cmd.Env, "VERIF_WORKDIR="+dir, "VERIF_WORKER_TIER="+Tier())
 	var stdout, stderr strings.Builder
 	cmd.Stdout, cmd.Stderr = &stdout, &stderr
 	cmd.SysProcAttr = &syscall.SysProcAttr{Setpgid: true}
